@@ -24,6 +24,11 @@ def run(chk, tier):
         prog = model.Program(fx[c], c)
         layout_terms.agreement(chk, prog, c)
         layout_terms.meta_written_only_at_allocation(chk, prog, c)
+        if c == "default":
+            # the per-value metadata is written for the strategy P the builder is made with and read back through the P
+            # of the finished Gc: the builder must not change P (or M) in between (F16)
+            from gcv import rules_builder
+            rules_builder.builders_invariant_in_value_type(chk, prog, rule="builders-invariant-in-metadata-strategy")
         layout_terms.flag_encoding(chk, prog, c)
         layout_terms.value_layouts(chk, prog, c)
         rules_ptr.cast_only(chk, prog, config=c)
